@@ -135,7 +135,10 @@ def tr(e, c, want=None):
     if isinstance(e, X.ExprMem):
         if not isinstance(e.size, int) or e.size <= 0 or e.size % 8:
             raise IllTyped('memory access of %r bits' % (e.size,), e)
-        a = c.fit(tr(e.arg, c), c.addr_bits, 'address', e)
+        a = tr(e.arg, c)
+        if c.strict and a.size() == 16 and c.addr_bits == 32:
+            a = z3.ZeroExt(16, a)        # 16-bit addressing: the effective address is 16 bits wide (C11 does not fix the width of an address)
+        a = c.fit(a, c.addr_bits, 'address', e)
         if e.segm is not None and e.segm is not False and not c.flat:
             sg = e.segm
             if isinstance(sg, X.Expr):
